@@ -157,6 +157,51 @@ def end_to_end(ck, rng, thorough):
     env = apel.PluginEnv(allow=True, ud={'x1111': ('echo',), 'x2222': ('raises', 'boom "quoted": {x}'), 'x3333': ('none',)}, src={'xsrc': ('raises',)}, callout={'x': ('raises',)}).install()
     tmp = tempfile.mkdtemp(prefix='c06_')
     try:
+        # ---- the document in memory against the text made from it: whatever parsePEL hands to json.dumps must be what the text parses back to,
+        # member for member -- keys that are not strings, tuples, or two keys that print alike are NOT "the decoded document printed".  Inputs: user
+        # data that is a Python literal but not JSON (what repr() of a dictionary looks like), next to ordinary JSON / text / binary user data.
+        def exact_(o):
+            if isinstance(o, dict):
+                return ['obj'] + [[k if isinstance(k, str) else ['not-a-string-key', repr(k)], exact_(v)] for k, v in o.items()]
+            if isinstance(o, list):
+                return ['arr'] + [exact_(v) for v in o]
+            if isinstance(o, (str, int, bool)) or o is None:
+                return o
+            return ['not-a-json-value', type(o).__name__, repr(o)[:40]]
+        def parsed_(text):
+            def conv(o):
+                if isinstance(o, _Pairs):
+                    return ['obj'] + [[k, conv(v)] for k, v in o]
+                if isinstance(o, list):
+                    return ['arr'] + [conv(v) for v in o]
+                return o
+            return conv(json.loads(text, object_pairs_hook=_Pairs))
+        class _Pairs(list):
+            pass
+        for lit_ in list(apel.PY_LITERALS) + [b'{"ok": [1, {"k": null}]}', b'plain text', bytes(range(7))]:
+            for sub_ in (1, 3):
+                b_ = pelbuild.pel([pelbuild.UH(), pelbuild.SRC(), pelbuild.UD(lit_, sub=sub_)], eid=0x0C060000)
+                rec_, orig_ = [], json.dumps
+                def spy_(obj, *a_, **k_):
+                    res_ = orig_(obj, *a_, **k_)
+                    if isinstance(obj, dict) and 'Private Header' in obj:
+                        rec_.append((obj, res_))
+                    return res_
+                json.dumps = spy_
+                try:
+                    real = apel.real_decode(b_)
+                finally:
+                    json.dumps = orig_
+                ck.case(key=('in-memory', lit_, sub_))
+                ck.count('in-memory document vs its text: %s' % ('document' if rec_ else real[0]))
+                for obj_, res_ in rec_:
+                    try:
+                        same_ = parsed_(res_) == exact_(obj_)
+                    except Exception:
+                        same_ = False
+                    if not same_:
+                        ck.fail('the text made from the decoded document does not parse back to exactly that document (keys that are not strings, values that are not JSON values, or keys that print alike)',
+                                {'op': 'parsePEL', 'data_hex': b_.hex(), 'user_data': lit_.decode('latin-1'), 'text_tail': res_[-300:]}, 'in_memory_document')
         for rnd in range(12 if thorough else 4):
             files = []
             for i in range(rng.choice([1, 2, 3])):
